@@ -68,7 +68,7 @@ func vfC08Gen(rt *rapid.T) vfC08Case {
 			return vfStoreOp{Op: "search", Q: q, K: rapid.IntRange(1, nLive+2).Draw(rt, "k")}
 		}
 	})
-	c.Ops = rapid.SliceOfN(opGen, 10, 60).Draw(rt, "ops")
+	c.Ops = vfListOf(rt, "ops", opGen, 10, 60)
 	c.Ops = append(c.Ops, vfStoreOp{Op: "search", Q: g.drawNonZero(rt, "q_last"), K: rapid.IntRange(1, 3).Draw(rt, "k_last")})
 	return c
 }
@@ -157,6 +157,7 @@ func vfWaitUntil(cond func() bool, d time.Duration) bool {
 }
 
 func vfC08Run(c vfC08Case, ctx *vfCtx) *vfViolation {
+	ctx.HistoryLen("history", len(c.Ops))
 	dir, err := os.MkdirTemp(vfEnv("VERIF_SCRATCH"), "c08-")
 	if err != nil {
 		return vfFail("mkdir: %v", err)
